@@ -241,6 +241,16 @@ struct CGen {
         case 3: { static const int C[12][2] = {{5,0},{-5,0},{0,5},{0,-5},{3,4},{-3,4},{3,-4},{-3,-4},{4,3},{-4,3},{4,-3},{-4,-3}};
                   int k = r.range(1, 3); for (int i = 0; i < n; i++) { int j = (int) r.below(12); v.push_back(XY{(double) C[j][0] * k, (double) C[j][1] * k}); }
                   if (r.chance(50)) v.push_back(gp(2)); out.count("in_points_cocircular"); break; }
+        case 4: { // a fat point set one of whose hull edges carries 3..5 collinear points (nearly collinear after a similarity)
+                  XY a = gp(6), d = gp(3); if (d.x == 0 && d.y == 0) d.x = 1; int k = r.range(3, 5);
+                  for (int i = 0; i < k; i++) v.push_back(XY{a.x + i * d.x, a.y + i * d.y});
+                  int m = r.range(1, 4); for (int i = 0; i < m; i++) { int u = r.range(0, k - 1), w = r.range(1, 9); v.push_back(XY{a.x + u * d.x - w * d.y, a.y + u * d.y + w * d.x}); }
+                  out.count("in_points_collinear_hull_edge"); break; }
+        case 5: { // every edge of a triangle subdivided into four: all points on the hull boundary, in collinear runs of five
+                  XY A{0, 0}, B{(double) (4 * r.range(1, 5)), (double) (4 * r.range(-2, 2))}, C{(double) (4 * r.range(-2, 4)), (double) (4 * r.range(1, 5))};
+                  XY T[3] = {A, B, C};
+                  for (int e = 0; e < 3; e++) for (int q = 0; q < 4; q++) { const XY& p = T[e]; const XY& w = T[(e + 1) % 3]; v.push_back(XY{p.x + (w.x - p.x) * q / 4, p.y + (w.y - p.y) * q / 4}); }
+                  out.count("in_points_subdivided_triangle"); break; }
         default: { int w = r.range(1, 9), h = r.chance(40) ? w : r.range(1, 9); v = {XY{0,0}, XY{(double) w,0}, XY{(double) w,(double) h}, XY{0,(double) h}};
                   for (int i = 0; i < n / 2; i++) v.push_back(XY{(double) r.range(0, w), (double) r.range(0, h)}); out.count("in_points_rectangle"); }
         }
@@ -294,14 +304,15 @@ struct CGen {
     }
     std::string empty() { static const char* E[] = {"P xy 0", "L xy 0", "Y 1 xy 0", "MP 0", "ML 0", "MY 0", "GC 0"}; out.count("in_empty"); return E[r.below(7)]; }
     std::string any(int depth) {
-        switch (r.below(depth > 0 ? 9 : 12)) {
-        case 0: case 1: return points((int) r.below(5));
+        switch (r.below(depth > 0 ? 9 : 14)) {
+        case 0: case 1: return points((int) r.below(7));
         case 2: return line((int) r.below(4));
         case 3: case 4: return polygon(0, 0, true);
         case 5: return grid ? flatPolygon() : polygon(0, 0, false);
         case 6: return empty();
         case 7: { std::string s = "P xy 1 " + ptTok(sim(gp(15))); out.count("in_point"); return s; }
         case 8: { int k = r.range(1, 3); std::string s = "MY " + std::to_string(k); for (int i = 0; i < k; i++) s += " " + polygon(40.0 * i, 0, true); out.count("in_multipolygon"); return s; }
+        case 12: case 13: return points(5);
         case 9: { int k = r.range(1, 3); std::string s = "ML " + std::to_string(k); for (int i = 0; i < k; i++) s += " " + line((int) r.below(4)); out.count("in_multiline"); return s; }
         default: { int k = r.range(1, 4); std::string s = "GC " + std::to_string(k); for (int i = 0; i < k; i++) s += " " + any(depth + 1); out.count("in_collection_mixed"); return s; }
         }
